@@ -1,6 +1,7 @@
 package main
 
 import (
+	"go/constant"
 	"fmt"
 	"go/token"
 	"go/types"
@@ -168,6 +169,9 @@ func (s *Session) execCallWith(st *State, c *ssa.CallCommon, fnv Value, args []V
 	}
 	// synthetic wrappers / bound methods: unwrap is not attempted
 	con := s.P.contractOf(pkg, rel)
+	if qn == "fmt.Errorf" && con != nil {
+		k = s.errorfWrap(c, args, k)
+	}
 	if con != nil {
 		if con.Flags["inline"] && callee.Blocks != nil {
 			s.inlineCall(st, callee, bind, args, pos, k)
@@ -669,4 +673,66 @@ func isAppend2(in ssa.Instruction) (*ssa.Call, bool) {
 	}
 	b, ok := c.Call.Value.(*ssa.Builtin)
 	return c, ok && b.Name() == "append"
+}
+
+// errorfWrap: what errors.Is sees through an error made by fmt.Errorf. With a constant format
+// string, the result wraps the operand of its (first) %w verb and nothing else:
+//   errIs(result, t)  <==>  t == result  ||  errIs(wrapped, t)      (with %w)
+//   errIs(result, t)  ==>   t == result                             (without)
+// errIs is the spec function of /verif/libspec (package errors) that errors.Is returns.
+// A non-constant format leaves the result unconstrained.
+func (s *Session) errorfWrap(c *ssa.CallCommon, args []Value, k func(*State, Value)) func(*State, Value) {
+	if len(c.Args) < 1 {
+		return k
+	}
+	cst, ok := c.Args[0].(*ssa.Const)
+	if !ok || cst.Value == nil || cst.Value.Kind() != constant.String {
+		return k
+	}
+	format := constant.StringVal(cst.Value)
+	// position of the first %w among the verbs
+	wIdx, n := -1, 0
+	for i := 0; i < len(format); i++ {
+		if format[i] != '%' {
+			continue
+		}
+		i++
+		for i < len(format) && strings.ContainsRune("+-# 0123456789.[]", rune(format[i])) {
+			i++
+		}
+		if i >= len(format) {
+			break
+		}
+		if format[i] == '%' {
+			continue
+		}
+		if format[i] == 'w' && wIdx < 0 {
+			wIdx = n
+		}
+		n++
+	}
+	return func(st *State, res Value) {
+		r, isTerm := res.(Term)
+		if !isTerm || r.Sort != SIface {
+			k(st, res)
+			return
+		}
+		s.D.Fun("sf_errIs", []Sort{SIface, SIface}, SBool)
+		q := Term{"t!e", SIface}
+		var body Term
+		if wIdx >= 0 && len(args) >= 2 {
+			sl := s.asTerm(args[1], c.Args[1].Type())
+			et := types.Type(types.NewInterfaceType(nil, nil))
+			if slt, ok := c.Args[1].Type().Underlying().(*types.Slice); ok {
+				et = slt.Elem() // `any` and `interface{}` have different heap keys
+			}
+			ek, eso := elemKey(et)
+			w := Select(Select(s.H(st, ek, eso), SArr(sl)), SIdx(sl, IntLit(int64(wIdx))))
+			body = Eq(mk(SBool, "sf_errIs", r, q), Or(Eq(q, r), mk(SBool, "sf_errIs", w, q)))
+		} else {
+			body = Implies(mk(SBool, "sf_errIs", r, q), Eq(q, r))
+		}
+		st.assume(Term{fmt.Sprintf("(forall ((t!e Iface)) (! %s :pattern ((sf_errIs %s t!e))))", body.S, r.S), SBool})
+		k(st, res)
+	}
 }
